@@ -1,5 +1,5 @@
 (* C10 - evaluation entry points for the correspondence harness. *)
-From CfdmV Require Import Common.Base C10.Model.
+From CfdmV Require Import Common.Base C10.Model C10.Fs C10.Ident.
 Open Scope Z_scope.
 
 Definition oerr_eqb (a b : option errk) : bool := option_eqb errk_eqb a b.
@@ -29,49 +29,58 @@ Fixpoint run_steps (e : list field) (l : list step_case) : option (list field) :
       end
   end.
 
-(* effect on a tracked name: 0 untouched, 1 altered or created, 2 absent now *)
-Definition effect (fs fs' : fsys) (n : fname) : Z :=
-  let a := obind (Some (real fs n)) (fun p => zassoc p (regs fs)) in
-  let b := zassoc (real fs' n) (regs fs') in
+Definition node_eqb (a b : node) : bool :=
   match a, b with
+  | NFile s k, NFile s' k' => Z.eqb s s' && Nat.eqb k k'
+  | NLink t, NLink t' => path_eqb t t'
+  | _, _ => false
+  end.
+
+(* effect on a tracked directory entry (canonical path): 0 untouched,
+   1 altered or created, 2 absent now *)
+Definition effect (nd nd' : store) (k : path) : Z :=
+  match passoc k nd, passoc k nd' with
   | None, None => 0
-  | Some (s, k), Some (s', k') => if Z.eqb s s' && Nat.eqb k k' then 0 else 1
+  | Some a, Some b => if node_eqb a b then 0 else 1
   | None, Some _ => 1
   | Some _, None => 2
   end.
 
+(* the external fields the writer derives: Field.convert of the named cell
+   measures of the written registers *)
+Definition efields_of (e : list field) (l : list (nat * string * list string)) : list field :=
+  flat_map (fun t => let '(i, k, keep) := t in
+                     match nth_error e i with
+                     | Some f => match convert f k keep with Some g => [g] | None => [] end
+                     | None => []
+                     end) l.
+
 (* a case: initial registers (as read), their reported aggregates, the steps,
-   then one write: file system, registers written, target name, options, the
-   tracked names with the observed effects, the observed error class (None =
-   returned), and whether the error class is to be compared (it is not for
-   errors raised while variables are written). *)
+   then one write: file system, registers written, external cell measures,
+   target, options, external file, the tracked entries with the observed
+   effects, the observed error class (None = returned). *)
+Definition wcase := (fsys * list nat * list (nat * string * list string) * target * wopts * option target
+                     * list (path * Z) * option errk)%type.
+
+Definition write_ok (e : list field) (w : wcase) : bool * bool :=
+  let '(fs, sel, efsel, x, o, ext, effs, err) := w in
+  let fields := flat_map (fun i => match nth_error e i with Some f => [f] | None => [] end) sel in
+  let q := mkQ fields (efields_of e efsel) x ext in
+  let (fs', r) := write_model guard fs q o 1000 in
+  (match w_fault o, r, err with
+   | FLate, Some OtherErr, Some _ => true
+   | _, _, _ => oerr_eqb r err
+   end,
+   forallb (fun ne => Z.eqb (effect (nodes fs) (nodes fs') (fst ne)) (snd ne)) effs).
+
 Definition check_case
-  (cs : list (field * list fname * list fname) * list step_case *
-        (fsys * list nat * fname * wopts * list (fname * Z) * option errk)) : bool :=
-  let '(init, steps, (fs, sel, x, o, effs, err)) := cs in
+  (cs : list (field * list fname * list fname) * list step_case * wcase) : bool :=
+  let '(init, steps, w) := cs in
   forallb (fun t => let '(f, orig, files) := t in agg_ok f orig files) init &&
   match run_steps (map (fun t => fst (fst t)) init) steps with
   | None => false
-  | Some e =>
-      let fields := flat_map (fun i => match nth_error e i with Some f => [f] | None => [] end) sel in
-      let (fs', r) := write_model guard fs fields x o 1000 in
-      match w_fault o, r, err with
-      | FLate, Some OtherErr, Some _ => true
-      | _, _, _ => oerr_eqb r err
-      end &&
-      forallb (fun ne => Z.eqb (effect fs fs' (fst ne)) (snd ne)) effs
+  | Some e => let (a, b) := write_ok e w in a && b
   end.
-
-(* the same with the guard and get_filenames as they were before the repair *)
-Definition check_write_old
-  (cs : list field * (fsys * fname * wopts * list (fname * Z) * option errk)) : bool :=
-  let '(fields, (fs, x, o, effs, err)) := cs in
-  let (fs', r) := write_model guard_old fs fields x o 1000 in
-  match w_fault o, r, err with
-  | FLate, Some OtherErr, Some _ => true
-  | _, _, _ => oerr_eqb r err
-  end &&
-  forallb (fun ne => Z.eqb (effect fs fs' (fst ne)) (snd ne)) effs.
 
 (* diagnosis of a disagreement, for the replay file: 0 = agrees; 1 = the
    aggregates reported for an initial construct differ from the model's;
@@ -92,19 +101,72 @@ Fixpoint diag_steps (e : list field) (l : list step_case) (k : nat) : nat + list
   end.
 
 Definition diag_case
-  (cs : list (field * list fname * list fname) * list step_case *
-        (fsys * list nat * fname * wopts * list (fname * Z) * option errk)) : nat :=
-  let '(init, steps, (fs, sel, x, o, effs, err)) := cs in
+  (cs : list (field * list fname * list fname) * list step_case * wcase) : nat :=
+  let '(init, steps, w) := cs in
   if negb (forallb (fun t => let '(f, orig, files) := t in agg_ok f orig files) init) then 1%nat
   else match diag_steps (map (fun t => fst (fst t)) init) steps 0 with
   | inl n => n
-  | inr e =>
-      let fields := flat_map (fun i => match nth_error e i with Some f => [f] | None => [] end) sel in
-      let (fs', r) := write_model guard fs fields x o 1000 in
-      if negb (match w_fault o, r, err with
-               | FLate, Some OtherErr, Some _ => true
-               | _, _, _ => oerr_eqb r err
-               end) then 1000%nat
-      else if negb (forallb (fun ne => Z.eqb (effect fs fs' (fst ne)) (snd ne)) effs) then 1001%nat
-      else 0%nat
+  | inr e => let (a, b) := write_ok e w in
+             if negb a then 1000%nat else if negb b then 1001%nat else 0%nat
   end.
+
+(* ---- the writer's treatment of its inputs (Ident.v) ----------------------------------- *)
+(* Per written construct: for every auxiliary coordinate the property lists
+   of its node count / part node count / interior ring variables (None =
+   absent), before the write.  The model lays them out in a heap, runs the
+   writer, and predicts (a) whether conform_geometry_variables refuses, (b)
+   the caller's property lists afterwards (unchanged).  Observed: the lists
+   after the write and whether the write raised. *)
+Definition gobs := list (option props * option props * option props).
+
+Definition alloc_opt (hn : heap * nat) (p : option props) : (heap * nat) * option addr :=
+  match p with
+  | None => (hn, None)
+  | Some ps => let '(h, n) := hn in ((hset h n ps, S n), Some n)
+  end.
+
+Fixpoint alloc_geo (hn : heap * nat) (l : gobs) : (heap * nat) * list gcoord :=
+  match l with
+  | [] => (hn, [])
+  | (a, b, c) :: r =>
+      let '(hn1, a') := alloc_opt hn a in
+      let '(hn2, b') := alloc_opt hn1 b in
+      let '(hn3, c') := alloc_opt hn2 c in
+      let '(hn4, r') := alloc_geo hn3 r in
+      (hn4, mkG a' b' c' :: r')
+  end.
+
+Fixpoint alloc_all (hn : heap * nat) (l : list gobs) : (heap * nat) * list obj :=
+  match l with
+  | [] => (hn, [])
+  | g :: r =>
+      let '(hn1, g') := alloc_geo hn g in
+      let '(hn2, r') := alloc_all hn1 r in
+      (hn2, mkO g' [] :: r')
+  end.
+
+Definition props_eqb (a b : props) : bool :=
+  list_eqb (fun x y => Z.eqb (fst x) (fst y) && Z.eqb (snd x) (snd y)) a b.
+
+Definition read_opt (h : heap) (o : option addr) : option props :=
+  match o with Some a => Some (hget h a) | None => None end.
+
+Definition read_back (h : heap) (o : obj) : gobs :=
+  map (fun g => (read_opt h (g_nc g), read_opt h (g_pnc g), read_opt h (g_ring g))) (o_geo o).
+
+Definition oprops_eqb := option_eqb props_eqb.
+
+Definition gobs_eqb (a b : gobs) : bool :=
+  list_eqb (fun x y => let '(a1, a2, a3) := x in let '(b1, b2, b3) := y in
+                       oprops_eqb a1 b1 && oprops_eqb a2 b2 && oprops_eqb a3 b3) a b.
+
+(* (before, after, cf18, raised, reached): [reached] = the write got as far as
+   writing constructs (no refusal, no option error); then a conflict predicted
+   by the model must have made the write raise, and in every case the
+   caller's lists afterwards must be the model's *)
+Definition check_ident (cs : list gobs * list gobs * bool * bool * bool) : bool :=
+  let '(before, after, cf18, raised, reached) := cs in
+  let '((h, n), objs) := alloc_all ([], O) before in
+  let '(h', _, err) := write_all (writer_prog cf18 []) h n objs in
+  (if reached && err then raised else true)
+  && list_eqb gobs_eqb (map (read_back h') objs) after.
